@@ -48,7 +48,7 @@ func (e *enc) havocAllN(note bool) {
 	}
 	sort.Strings(names)
 	for _, n := range names {
-		if strings.HasPrefix(n, "defer.") || strings.HasPrefix(n, "cell.") {
+		if strings.HasPrefix(n, "defer.") || strings.HasPrefix(n, "cell.") || e.v.initOnlyGlobals[n] {
 			// flags and local cells of this activation are not reachable by callees
 			continue
 		}
@@ -84,13 +84,40 @@ func (e *enc) run() {
 		e.params[p.Name()] = v
 	}
 	for _, fv := range fn.FreeVars {
+		// captured variables are cells shared with the enclosing function
+		if p, ok := fv.Type().(*types.Pointer); ok {
+			name := "cell.fv." + symSafe(e.name) + "." + symSafe(fv.Name())
+			e.regState(name, e.te.SortOf(p.Elem()))
+			e.vals[fv] = Val{T: "0", S: "Int", GT: fv.Type(), A: &Addr{Root: "cell", Var: name, RT: p.Elem()}}
+			continue
+		}
 		s := e.te.SortOf(fv.Type())
 		n := "fv." + symSafe(fv.Name())
 		e.declConst(n, s)
 		e.vals[fv] = Val{T: n, S: s, GT: fv.Type()}
 	}
+	for _, b := range fn.Blocks {
+		for _, in := range b.Instrs {
+			if d, ok := in.(*ssa.Defer); ok {
+				flag := e.deferFlag(d)
+				e.state[flag] = "false"
+			}
+		}
+	}
 	e.regState("frontier", "Int")
 	e.assume("(> " + e.get("frontier") + " 0)")
+	// package-level variables that are only assigned during package initialisation with a non-nil value
+	for g := range e.v.nonNilGlobals {
+		e.regState(g, e.v.globalSorts[g])
+		switch e.v.globalSorts[g] {
+		case "Int":
+			e.assume("(> " + e.get(g) + " 0)")
+		case "Iface":
+			e.assume("(not (= (i-tag " + e.get(g) + ") 0))")
+		case "RType":
+			e.assume("(not (= " + e.get(g) + " rt.nil))")
+		}
+	}
 	for _, p := range fn.Params {
 		e.assumeAllocated(e.vals[p])
 	}
@@ -108,6 +135,20 @@ func (e *enc) run() {
 		}
 		for _, r := range e.fc.Requires {
 			e.assume(e.trBool(r.E, env, "requires"))
+		}
+	}
+	// a function whose signature is that of a declared function type is only called through it:
+	// the function type's preconditions hold on entry (they are obligations at every dynamic call)
+	if ft := e.v.functypeFor(fn); ft != nil && (e.fc == nil || e.fc.Implements != "none") {
+		vars := map[string]Val{}
+		for i, p := range fn.Params {
+			if i < len(ft.Params) {
+				vars[ft.Params[i]] = e.vals[p]
+			}
+		}
+		env := &Env{vars: vars, cur: e.state, old: e.initSt, e: e}
+		for _, r := range ft.Requires {
+			e.assume(e.trBool(r.E, env, "functype requires"))
 		}
 	}
 	e.initSt = copyState(e.state)
